@@ -11,8 +11,6 @@ import (
 	"crypto/elliptic"
 	"crypto/x509"
 	"errors"
-	"hash"
-	"strings"
 	"time"
 
 	"github.com/notaryproject/notation-core-go/revocation"
@@ -22,6 +20,7 @@ import (
 	"github.com/notaryproject/notation-go"
 	"github.com/notaryproject/notation-go/internal/zzvr/envkit"
 	vr "github.com/notaryproject/notation-go/internal/zzvr"
+	"github.com/notaryproject/notation-go/internal/zzvr/blobkit"
 	"github.com/notaryproject/notation-go/signer"
 	"github.com/notaryproject/notation-go/verifier"
 	"github.com/notaryproject/notation-go/verifier/trustpolicy"
@@ -32,7 +31,6 @@ import (
 )
 
 //vsym:stub github.com/notaryproject/notation-core-go/signature.NewLocalSigner = newLocalSigner
-//vsym:stub (github.com/opencontainers/go-digest.Algorithm).Digester = newDigester
 
 const (
 	payloadType = "application/vnd.cncf.notary.payload.v1+json"
@@ -76,45 +74,6 @@ func newLocalSigner(certs []*x509.Certificate, key crypto.PrivateKey) (signature
 		return nil, errors.New("empty certs")
 	}
 	return &localSigner{ks: localKeySpec, certs: certs}, nil
-}
-
-// ---- blob digesting (contract of go-digest's Digester: uninterpreted digest per algorithm and blob) ----
-
-type blobHash struct{ n int64 }
-
-func (h *blobHash) Write(p []byte) (int, error) { h.n += int64(len(p)); return len(p), nil }
-func (h *blobHash) Sum(b []byte) []byte         { return b }
-func (h *blobHash) Reset()                      { h.n = 0 }
-func (h *blobHash) Size() int                   { return 32 }
-func (h *blobHash) BlockSize() int              { return 64 }
-
-type blobDigester struct {
-	alg digest.Algorithm
-	h   *blobHash
-}
-
-func (d *blobDigester) Hash() hash.Hash { return d.h }
-func (d *blobDigester) Digest() digest.Digest {
-	return digest.Digest(string(d.alg) + ":" + blobDigestHex(d.alg))
-}
-
-var digesterAlgs []digest.Algorithm
-
-func newDigester(a digest.Algorithm) digest.Digester {
-	digesterAlgs = append(digesterAlgs, a)
-	return &blobDigester{alg: a, h: &blobHash{}}
-}
-
-func blobDigestHex(a digest.Algorithm) string {
-	switch a {
-	case digest.SHA256:
-		return strings.Repeat("1", 64)
-	case digest.SHA384:
-		return strings.Repeat("2", 96)
-	case digest.SHA512:
-		return strings.Repeat("3", 128)
-	}
-	return "00"
 }
 
 // ---- scripted signing plugin --------------------------------------------------------------------------
@@ -341,7 +300,8 @@ func signedContent(kind int) *signature.EnvelopeContent {
 // VsymC07OCI: SignOCI -> Verify.
 func VsymC07OCI() {
 	envkit.Reset()
-	pluginContent, digesterAlgs = nil, nil
+	pluginContent = nil
+	blobkit.Reset()
 	kind := vr.Choice("signerKind", 3) // local key, raw-signature plugin, envelope plugin
 	if !vr.Symbolic() && kind != 0 {
 		vr.SkipNative() // natively only the local key signer runs (real keys, real JWS / COSE envelopes)
@@ -411,7 +371,8 @@ func VsymC07OCI() {
 // VsymC07Blob: SignBlob -> VerifyBlob.
 func VsymC07Blob() {
 	envkit.Reset()
-	pluginContent, digesterAlgs = nil, nil
+	pluginContent = nil
+	blobkit.Reset()
 	kind := vr.Choice("signerKind", 3)
 	if !vr.Symbolic() && kind != 0 {
 		vr.SkipNative()
@@ -427,7 +388,14 @@ func VsymC07Blob() {
 	opts.SignatureMediaType = mt
 	opts.ExpiryDuration = dur
 	ctx := context.Background()
-	sig, info, err := notation.SignBlob(ctx, bs, strings.NewReader(blob), opts)
+	// how the blob arrives: in one piece or several, the last one together with io.EOF or not
+	var delivery *blobkit.Reader
+	if kind == 0 {
+		delivery = blobkit.NewReader(blob)
+	} else {
+		delivery = &blobkit.Reader{Data: blob, Piece: 1 << 20}
+	}
+	sig, info, err := notation.SignBlob(ctx, bs, delivery, opts)
 	vr.Assert(err == nil && len(sig) > 0 && info != nil, "signing a blob succeeds")
 	if err != nil {
 		return
@@ -439,11 +407,9 @@ func VsymC07Blob() {
 		return
 	}
 	alg := wantDigestAlg[ksIdx]
-	wantDigest := string(alg) + ":" + blobDigestHex(alg)
+	wantDigest := blobkit.DigestOf(alg, blob) // natively the real digest: a wrong algorithm on either side shows as a mismatch
 	if vr.Symbolic() {
-		vr.Assert(len(digesterAlgs) == 1 && digesterAlgs[0] == alg, "the blob digest is computed with the hash bound to the signing key")
-	} else {
-		wantDigest = string(alg.FromString(blob)) // the real digest: a wrong algorithm on either side shows as a mismatch
+		vr.Assert(len(blobkit.Algs) == 1 && blobkit.Algs[0] == alg, "the blob digest is computed with the hash bound to the signing key")
 	}
 	kv := []any{"mediaType", vr.JStr(contentMT), "digest", vr.JStr(wantDigest), "size", vr.JNum(int64(len(blob)))}
 	if len(meta.keys) > 0 {
@@ -467,14 +433,14 @@ func VsymC07Blob() {
 	vopts := notation.VerifyBlobOptions{ContentMediaType: contentMT}
 	vopts.SignatureMediaType = mt
 	vopts.UserMetadata = meta.m
-	digesterAlgs = nil
-	desc, outcome, err := notation.VerifyBlob(ctx, v, strings.NewReader(blob), sig, vopts)
+	blobkit.Algs = nil
+	desc, outcome, err := notation.VerifyBlob(ctx, v, &blobkit.Reader{Data: blob, Piece: delivery.Piece, EOFWithData: delivery.EOFWithData}, sig, vopts)
 	vr.Assert(err == nil && outcome != nil && outcome.Error == nil, "a blob signature produced by the signing API verifies under a policy that trusts the signer")
 	if err != nil || outcome == nil {
 		return
 	}
 	if vr.Symbolic() {
-		vr.Assert(len(digesterAlgs) == 1 && digesterAlgs[0] == alg, "verification digests the blob with the hash bound to the signing key")
+		vr.Assert(len(blobkit.Algs) == 1 && blobkit.Algs[0] == alg, "verification digests the blob with the hash bound to the signing key")
 	}
 	vr.FindingKey("verifyblob-returns-zero-descriptor")
 	vr.Assert(string(desc.Digest) == wantDigest && desc.Size == int64(len(blob)) && desc.MediaType == contentMT, "successful blob verification returns the descriptor of the blob that was verified")
